@@ -744,3 +744,47 @@ Proof.
     + destruct Hc as [E|[]]. inversion E; subst. eapply Col; [reflexivity | exact Ha].
   - destruct Hc as [E|[]]. inversion E; subst. apply (Base a Ha o' Ho Hpd).
 Qed.
+
+(* ------------------------------------------------------------------ bare arrays mixed with timeseries: the ValueError *)
+Lemma arr_clash_spec P os :
+  arr_clash (TgIdx P) os = true <->
+  exists o n, In o os /\ arr_rows o = Some n /\ n <> length P /\ (1 < n)%nat.
+Proof.
+  unfold arr_clash. rewrite existsb_exists. split.
+  - intros [o [Ho H]]. destruct (arr_rows o) as [n|] eqn:E; [|discriminate].
+    apply andb_true_iff in H. destruct H as [H1 H2]. apply negb_true_iff in H1. apply Nat.eqb_neq in H1. apply Nat.ltb_lt in H2.
+    exists o, n. auto.
+  - intros [o [n [Ho [E [H1 H2]]]]]. exists o. split; [exact Ho|]. rewrite E.
+    apply andb_true_iff. split; [apply negb_true_iff; apply Nat.eqb_neq; exact H1 | apply Nat.ltb_lt; exact H2].
+Qed.
+
+Lemma reindex_obj_array_unchanged P m o n : arr_rows o = Some n -> reindex_obj (TgIdx P) m o = o.
+Proof. destruct o; simpl; try discriminate; reflexivity. Qed.
+
+Theorem df_sync_checked_spec tr h m ch P : (forall o, tr <> Leaf o) -> df_index (flatten tr) h = TgIdx P ->
+  (df_sync_checked tr h m ch = None <->
+     exists o n, In o (flatten tr) /\ arr_rows o = Some n /\ n <> length P /\ (1 < n)%nat) /\
+  (forall r, df_sync_checked tr h m ch = Some r -> r = df_sync tr h m ch).
+Proof.
+  intros Hn HP.
+  assert (E : df_sync_checked tr h m ch = if arr_clash (TgIdx P) (flatten tr) then None else Some (df_sync tr h m ch)).
+  { unfold df_sync_checked. rewrite HP. destruct tr; [exfalso; eapply Hn; reflexivity | reflexivity | reflexivity]. }
+  rewrite E. rewrite <- arr_clash_spec. destruct (arr_clash (TgIdx P) (flatten tr)); split.
+  - split; auto.
+  - intros r H. discriminate.
+  - split; intros H; discriminate.
+  - intros r H. inversion H. reflexivity.
+Qed.
+
+Theorem df_reindex_checked_spec tr h m P : reindex_target tr h = TgIdx P ->
+  (df_reindex_checked tr h m = None <->
+     exists o n, In o (flatten tr) /\ arr_rows o = Some n /\ n <> length P /\ (1 < n)%nat) /\
+  (forall r, df_reindex_checked tr h m = Some r -> r = df_reindex tr h m).
+Proof.
+  intros HP. unfold df_reindex_checked. rewrite HP. rewrite <- arr_clash_spec.
+  destruct (arr_clash (TgIdx P) (flatten tr)); split.
+  - split; auto.
+  - intros r H. discriminate.
+  - split; intros H; discriminate.
+  - intros r H. inversion H. reflexivity.
+Qed.
